@@ -46,6 +46,7 @@ type Output struct {
 	AltDisagree  int            `json:"alt_disagree"`
 	Reach        map[string]int `json:"reach"`
 	Known        map[string]int `json:"known"`
+	Fallback     int            `json:"decided_by_cvc5_bv_as_int"`
 	Funcs        []string       `json:"functions_encoded"`
 	Stubs        []string       `json:"stubs_used"`
 	WallSec      float64        `json:"wall_seconds"`
@@ -66,7 +67,7 @@ func main() {
 	workers := flag.Int("workers", 16, "parallel workers")
 	solver := flag.String("solver", "z3-new", "z3 | z3-new | cvc5 | cvc5-int")
 	alt := flag.String("alt", "", "second solver for final obligations")
-	timeout := flag.Int("timeout", 60000, "per-query timeout (ms)")
+	timeout := flag.Int("timeout", 20000, "per-query timeout (ms)")
 	maxSteps := flag.Int("maxsteps", 3000000, "instruction limit per path")
 	maxPaths := flag.Int("maxpaths", 0, "stop after this many paths (0 = all)")
 	witness := flag.Int("witness", 0, "attach a witness model to every n-th ok path")
@@ -199,7 +200,7 @@ func main() {
 	o := Output{Harness: *harness, Pkg: *pkgPat, Paths: st.Paths, ByKind: st.ByKind, Branches: st.Branches,
 		Obligations: st.Obligations, Discharged: st.Discharged, ConcreteObl: st.ConcreteObl,
 		SolverQ: st.SolverQ, SolverSec: st.SolverTime.Seconds(), SolverErrors: st.SolverErrors, Inconclusive: st.Inconclusive,
-		AltAgree: st.AltAgree, AltDisagree: st.AltDisagree, Reach: st.Reach, Known: st.Known,
+		AltAgree: st.AltAgree, AltDisagree: st.AltDisagree, Reach: st.Reach, Known: st.Known, Fallback: st.Fallback,
 		Funcs: sortedKeys(st.Funcs), Stubs: sortedKeys(st.Stubs), WallSec: time.Since(t1).Seconds(), LoadSec: loadSec,
 		Results: x.res, Solver: *solver, Alt: *alt, Complete: !x.stop, MaxSteps: *maxSteps}
 	sort.Slice(o.Results, func(i, j int) bool {
@@ -237,7 +238,16 @@ func main() {
 				k := r.Kind + r.Msg
 				seen[k]++
 				if seen[k] <= 2 {
-					fmt.Printf("  %s: %s @%s\n    stack: %s\n    model: %v\n", r.Kind, r.Msg, r.Where, r.Stack, r.Model)
+					mm := r.Model
+					if len(mm) > 40 {
+						mm = map[string]uint64{}
+						for k, v := range r.Model {
+							if v != 0 && len(mm) < 40 {
+								mm[k] = v
+							}
+						}
+					}
+					fmt.Printf("  %s: %s @%s\n    stack: %s\n    model(nonzero): %v\n", r.Kind, r.Msg, r.Where, r.Stack, mm)
 				}
 			}
 		}
